@@ -38,6 +38,29 @@ impl<T: Send> ThreadLocal<T> {
         ThreadLocal { slots: Mutex::new(BTreeMap::new()) }
     }
 
+    pub fn with_capacity(_n: usize) -> Self {
+        Self::new()
+    }
+
+    pub fn get_or_try<F: FnOnce() -> Result<T, E>, E>(&self, create: F) -> Result<&T, E> {
+        if let Some(v) = self.get() {
+            yui_verif_rt::note_tls(false);
+            return Ok(v);
+        }
+        let v = create()?;
+        Ok(self.get_or(|| v))
+    }
+
+    /// all values, in slot-creation-independent (key) order
+    pub fn iter(&self) -> impl Iterator<Item = &T>
+    where
+        T: Sync,
+    {
+        let g = self.slots.lock().unwrap();
+        let v: Vec<&T> = g.values().map(|b| unsafe { &*b.get() }).collect();
+        v.into_iter()
+    }
+
     pub fn get(&self) -> Option<&T> {
         let k = key();
         let g = self.slots.lock().unwrap();
@@ -78,5 +101,13 @@ impl<T: Send> ThreadLocal<T> {
 
     pub fn clear(&mut self) {
         self.slots.get_mut().unwrap().clear()
+    }
+}
+
+impl<T: Send> IntoIterator for ThreadLocal<T> {
+    type Item = T;
+    type IntoIter = std::vec::IntoIter<T>;
+    fn into_iter(self) -> Self::IntoIter {
+        self.slots.into_inner().unwrap().into_values().map(|b| b.into_inner()).collect::<Vec<_>>().into_iter()
     }
 }
